@@ -553,11 +553,11 @@ theorem step_inv (total : Bytes) (s : LoopSt) (a : CapAns) (h : LoopInv total s)
         · intro _ h0
           have h0' : s.cur.drop (min s.cur.length c) = [] := h0
           apply hemp; simp [h0']
-        · simp only [hf]
+        · simp only
           constructor
           · intro ⟨f, hf', he⟩; rw [hF' f hf'] at he; cases he
           · intro h'; cases h'
-        · simp [hf]
+        · simp
 
 /-- the invariant holds after every sequence of answers -/
 theorem runSteps_inv (items : List Item) (sched : List CapAns) :
@@ -567,5 +567,23 @@ theorem runSteps_inv (items : List Item) (sched : List CapAns) :
     | nil => intro s h; exact h
     | cons a rest ih => intro s h; exact ih _ (step_inv _ s a h)
   exact this _ (pull_inv _ [] items (by simp [wireBytes]) (by simp))
+
+/-! ### several streams -/
+
+theorem foldl_connStep (evs : List (Nat × CapAns)) (c : ConnSt) (k : Nat) :
+    (evs.foldl connStep c) k = (project k evs).foldl step (c k) := by
+  induction evs generalizing c with
+  | nil => rfl
+  | cons e rest ih =>
+    simp only [List.foldl_cons, ih, project, List.filter_cons]
+    by_cases hk : e.1 = k
+    · simp [hk, connStep]
+    · have : (e.1 == k) = false := by simpa using hk
+      have hk' : ¬ k = e.1 := fun h => hk h.symm
+      simp [this, connStep, hk']
+
+theorem runConn_project (bodies : Nat → List Item) (evs : List (Nat × CapAns)) (k : Nat) :
+    runConn bodies evs k = runSteps (bodies k) (project k evs) := by
+  simp [runConn, runSteps, foldl_connStep]
 
 end ActixModel.H2
